@@ -60,9 +60,11 @@ def main():
     ap.add_argument("--only", help="substring filter on the patch path")
     ap.add_argument("--skip-clean", action="store_true")
     ap.add_argument("--tests", action="store_true", help="also run the repository test-suite on each mutant")
+    ap.add_argument("--record", action="store_true", help="write sensitivity/<ID>.json (which patch was caught, by which signature)")
     a = ap.parse_args()
     ok = True
     for prop in [p.upper() for p in a.props]:
+        record = {"property": prop, "tier": a.tier, "mutant_seed": a.mutant_seed, "patches": [], "unchanged_tree": []}
         for patch in patches_for(prop):
             if a.only and a.only not in patch:
                 continue
@@ -89,6 +91,8 @@ def main():
             sigs = [l for l in r["out"].splitlines() if l.startswith("violation detail")]
             print("%-60s %s %.0fs %s %s" % (rel, verdict, r["wall"], ("tests_rc=%s %s" % (r.get("tests_rc"), r.get("tests_tail"))) if a.tests else "",
                                             (sigs[0][:160] if sigs else "")))
+            record["patches"].append({"patch": rel, "verdict": verdict, "wall_s": round(r["wall"], 1),
+                                      "signatures": sorted({l.split("]")[0].split("[", 1)[-1] for l in sigs})[:12]})
             if r["rc"] != 1:
                 ok = False
                 if r["rc"] == 2:
@@ -97,9 +101,14 @@ def main():
             for seed in a.seeds.split(","):
                 rc, out, wall = run_check(prop, a.tier, REPO, seed)
                 print("%-60s %s %.0fs" % ("%s unchanged tree seed=%s" % (prop, seed), "QUIET" if rc == 0 else "ALARM rc=%d" % rc, wall))
+                record["unchanged_tree"].append({"seed": int(seed), "rc": rc, "wall_s": round(wall, 1)})
                 if rc != 0:
                     ok = False
                     print("\n".join(l for l in out.splitlines() if l.startswith(("VIOLATION", "violation", "HARNESS")))[:3000])
+        if a.record and not a.only:
+            os.makedirs(os.path.join(VERIF_DIR, "sensitivity"), exist_ok=True)
+            with open(os.path.join(VERIF_DIR, "sensitivity", prop + ".json"), "w") as f:
+                json.dump(record, f, indent=1)
     return 0 if ok else 1
 
 
